@@ -555,30 +555,37 @@ func normCond(c string) (string, bool) {
 		c = c[1:]
 		pol = !pol
 	}
-	if strings.HasPrefix(c, "(") && strings.HasSuffix(c, ")") {
-		// find the top-level operator
-		depth := 0
-		inStr := false
-		for i := 1; i < len(c)-1; i++ {
-			ch := c[i]
-			if ch == '"' && c[i-1] != '\\' {
-				inStr = !inStr
+	if l, op, r, ok := splitTop(c); ok {
+		// a literal on the left: turn the comparison round
+		if isNumLit(l) && !isNumLit(r) {
+			if f, ok := map[string]string{"<": ">", "<=": ">=", ">": "<", ">=": "<=", "==": "==", "!=": "!="}[op]; ok {
+				l, r, op = r, l, f
 			}
-			if inStr {
-				continue
-			}
-			switch ch {
-			case '(', '[':
-				depth++
-			case ')', ']':
-				depth--
-			}
-			if depth == 0 && strings.HasPrefix(c[i:], " != ") {
-				return c[:i] + " == " + c[i+4:], !pol
-			}
+		}
+		switch op {
+		case "!=":
+			return "(" + l + " == " + r + ")", !pol
+		case ">":
+			return "(" + l + " <= " + r + ")", !pol
+		case ">=":
+			return "(" + l + " < " + r + ")", !pol
+		case "==", "<", "<=":
+			return "(" + l + " " + op + " " + r + ")", pol
 		}
 	}
 	return c, pol
+}
+
+func isNumLit(s string) bool {
+	if s == "" {
+		return false
+	}
+	for i, ch := range s {
+		if !(ch >= '0' && ch <= '9' || i == 0 && ch == '-' && len(s) > 1) {
+			return false
+		}
+	}
+	return true
 }
 
 func dumpPaths(P *Program, spec string) {
@@ -739,8 +746,12 @@ func (p *Path) effects(pure ...string) []string {
 
 // holds reports whether cond c is among the path's branch outcomes.
 func (p *Path) holds(c string) bool {
+	ck, cp := normCond(c)
 	for _, x := range p.Conds {
 		if x == c {
+			return true
+		}
+		if xk, xp := normCond(x); xk == ck && xp == cp {
 			return true
 		}
 	}
@@ -971,12 +982,17 @@ func splitTop(c string) (l, op, r string, ok bool) {
 				if j <= 0 {
 					return
 				}
+				if !binOps[rest[:j]] {
+					continue // a space inside a term ("invoke T.m(...)", "builtin len(x)")
+				}
 				return c[1:i], rest[:j], rest[j+1 : len(rest)-1], true
 			}
 		}
 	}
 	return
 }
+
+var binOps = map[string]bool{"==": true, "!=": true, "<": true, "<=": true, ">": true, ">=": true, "+": true, "-": true, "*": true, "/": true, "%": true, "&": true, "|": true, "^": true, "<<": true, ">>": true, "&^": true}
 
 // evalInt evaluates an integer literal or a parenthesised + - * / expression over literals.
 func evalInt(t string) (int64, bool) {
